@@ -30,7 +30,7 @@
  *   sample <id> <is16> <stereo> <loop> <base> <elems>     original allocation, before first use
  *   tick
  *   mix <voc> <id> <start> <end> <sampleLoop> <bidir> <nearest> | <window of real memory>
- *   vend <loop> <sloop> <loopbidir> <sloopbidir> <loopfull> <len> <lps> <lpe> <sus> <sue> <release> <sampleLoop> | <start> <end> <bidir>
+ *   vend <ismodsample> <loop> <sloop> <loopbidir> <sloopbidir> <loopfull> <len> <lps> <lpe> <sus> <sue> <release> <sampleLoop> | <start> <end> <bidir>
  *                                   (before every mix line) what adjust_voice_end reads | the voice's end points
  *   tickend <ndiff>                 number of samples whose allocation differs from the snapshot
  *   skel_end
@@ -303,6 +303,49 @@ static int wrap_case(void)
 	return 0;
 }
 
+/* adjust_voice_end on random sample headers / voice flags (also emitted in wrap mode) */
+static void vend_case(void)
+{
+	static struct context_data ctx;	/* only m.mod.smp is read (has_active_sustain_loop) */
+	struct xmp_sample xxs;
+	struct extra_sample_data xtra;
+	struct mixer_voice vi;
+	int ismod = vrng_chance(80);
+	int len = vrng_chance(10) ? 0 : vrng_range(1, 60);
+	int wf = vrng_chance(70);
+
+	memset(&xxs, 0, sizeof(xxs));
+	memset(&vi, 0, sizeof(vi));
+	ctx.m.mod.smp = 1;
+	vi.smp = ismod ? 0 : 1;
+	xxs.len = len;
+	if (wf && len > 0) {
+		xxs.lps = vrng_range(0, len - 1);
+		xxs.lpe = vrng_range(xxs.lps + 1, len);
+		xtra.sus = vrng_range(0, len - 1);
+		xtra.sue = vrng_range(xtra.sus + 1, len);
+	} else {
+		xxs.lps = vrng_range(-3, len + 3);
+		xxs.lpe = vrng_range(-3, len + 3);
+		xtra.sus = vrng_range(-3, len + 3);
+		xtra.sue = vrng_range(-3, len + 3);
+	}
+	xtra.c5spd = 8363.0;
+	xxs.flg = (vrng_chance(60) ? XMP_SAMPLE_LOOP : 0) | (vrng_chance(40) ? XMP_SAMPLE_SLOOP : 0) |
+		  (vrng_chance(40) ? XMP_SAMPLE_LOOP_BIDIR : 0) | (vrng_chance(40) ? XMP_SAMPLE_SLOOP_BIDIR : 0) |
+		  (vrng_chance(40) ? XMP_SAMPLE_LOOP_FULL : 0) | (vrng_chance(30) ? XMP_SAMPLE_16BIT : 0);
+	vi.flags = (vrng_chance(40) ? VOICE_RELEASE : 0) | (vrng_chance(50) ? SAMPLE_LOOP : 0) |
+		   (vrng_chance(50) ? VOICE_BIDIR : 0) | (vrng_chance(30) ? VOICE_REVERSE : 0);
+	vi.start = -77;
+	vi.end = -77;
+	printf("vend %d %d %d %d %d %d %d %d %d %d %d %d %d | ", ismod, (xxs.flg & XMP_SAMPLE_LOOP) ? 1 : 0,
+	       (xxs.flg & XMP_SAMPLE_SLOOP) ? 1 : 0, (xxs.flg & XMP_SAMPLE_LOOP_BIDIR) ? 1 : 0,
+	       (xxs.flg & XMP_SAMPLE_SLOOP_BIDIR) ? 1 : 0, (xxs.flg & XMP_SAMPLE_LOOP_FULL) ? 1 : 0, xxs.len, xxs.lps, xxs.lpe,
+	       xtra.sus, xtra.sue, (vi.flags & VOICE_RELEASE) ? 1 : 0, (vi.flags & SAMPLE_LOOP) ? 1 : 0);
+	adjust_voice_end(&ctx, &vi, &xxs, ismod ? &xtra : NULL);
+	printf("%d %d %d\n", vi.start, vi.end, (vi.flags & VOICE_BIDIR) ? 1 : 0);
+}
+
 /* ------------------------------------------------------------------ skel */
 
 struct snap {
@@ -364,7 +407,7 @@ static void on_mix(struct mixer_voice *vi)
 	}
 	{
 		struct extra_sample_data *xt = &ctx->m.xtra[vi->smp];
-		printf("vend %d %d %d %d %d %d %d %d %d %d %d %d | %d %d %d\n", (xxs->flg & XMP_SAMPLE_LOOP) ? 1 : 0,
+		printf("vend 1 %d %d %d %d %d %d %d %d %d %d %d %d | %d %d %d\n", (xxs->flg & XMP_SAMPLE_LOOP) ? 1 : 0,
 		       (xxs->flg & XMP_SAMPLE_SLOOP) ? 1 : 0, (xxs->flg & XMP_SAMPLE_LOOP_BIDIR) ? 1 : 0,
 		       (xxs->flg & XMP_SAMPLE_SLOOP_BIDIR) ? 1 : 0, (xxs->flg & XMP_SAMPLE_LOOP_FULL) ? 1 : 0, xxs->len, xxs->lps,
 		       xxs->lpe, xt->sus, xt->sue, (vi->flags & VOICE_RELEASE) ? 1 : 0, (vi->flags & SAMPLE_LOOP) ? 1 : 0,
@@ -418,6 +461,27 @@ void libxmp_mixer_softmixer(struct context_data *ctx)
 	g_total_bad += bad;
 }
 
+/* structure-aware variation of a loaded module (states a loader may legitimately produce): looped samples
+ * become bidirectional; samples that satisfy the FULLREP condition (lps == 0, len > lpe) get XMP_SAMPLE_LOOP_FULL */
+static int vary_loops(struct xmp_module *mod)
+{
+	int i, n = 0;
+	for (i = 0; i < mod->smp; i++) {
+		struct xmp_sample *x = &mod->xxs[i];
+		if (!(x->flg & XMP_SAMPLE_LOOP) || x->data == NULL)
+			continue;
+		if (vrng_chance(30)) {
+			x->flg ^= XMP_SAMPLE_LOOP_BIDIR;
+			n++;
+		}
+		if (x->lps == 0 && x->len > x->lpe && vrng_chance(50)) {
+			x->flg |= XMP_SAMPLE_LOOP_FULL;
+			n++;
+		}
+	}
+	return n;
+}
+
 static int skel_case(const char *path, int nframes)
 {
 	xmp_context opaque = xmp_create_context();
@@ -437,6 +501,8 @@ static int skel_case(const char *path, int nframes)
 		return 0;
 	}
 	mod = &ctx->m.mod;
+	if (vrng_chance(40))
+		vary_loops(mod);
 	g_ctx = ctx;
 	g_nsnap = mod->smp;
 	g_snap = (struct snap *)calloc(mod->smp > 0 ? mod->smp : 1, sizeof(struct snap));
@@ -489,8 +555,10 @@ int main(int argc, char **argv)
 	if (argc >= 4 && !strcmp(argv[1], "wrap")) {
 		int n = atoi(argv[3]);
 		vrng_seed(strtoull(argv[2], NULL, 10));
-		for (i = 0; i < n; i++)
+		for (i = 0; i < n; i++) {
 			wrap_case();
+			vend_case();
+		}
 		return 0;
 	}
 	if (argc >= 6 && !strcmp(argv[1], "skel")) {
